@@ -28,7 +28,7 @@ def parseRule (s : String) : Option Rule :=
 def allSome {α : Type} (l : List (Option α)) : Option (List α) :=
   l.foldr (fun x acc => match x, acc with | some a, some l => some (a :: l) | _, _ => none) (some [])
 
-/-- `ml,minpre,maxpre,ncols,ntrans,nstates,nsucc/cols/starts/rows/rulemaps/rules` -/
+/-- `ml,minpre,maxpre,ncols,ntrans,nstates,nsucc/cols/starts/rows/rulemaps/rules[/patterns[/pass constraint hex]]` -/
 def parsePass (s : String) : Option PassT :=
   match (s.splitOn "/").take 6 with
   | [hdr, cols, starts, rows, maps, rules] =>
@@ -40,7 +40,8 @@ def parsePass (s : String) : Option PassT :=
       -- `Pass::readPass`: `if (m_iMaxLoop < 1) m_iMaxLoop = 1;`; an eighth number is the pass's flag byte (bit 5: reverse direction)
       some { maxLoop := max ml 1, minPre := mn, maxPre := mx, numColumns := nc, numTransition := nt, numStates := ns, numSuccess := nsu,
              cols := cols.toArray, starts := starts.toArray, trans := (rows.map List.toArray).toArray, ruleMap := maps.toArray, rules := rules.toArray,
-             reverseDir := (more.headD 0 / 32) % 2 = 1 }
+             reverseDir := (more.headD 0 / 32) % 2 = 1,
+             pconstraint := (((s.splitOn "/")[7]?).bind hexBytes).getD [] }
     | _, _, _, _, _, _ => none
   | _ => none
 
